@@ -87,6 +87,12 @@ func (m *authenticatedMap[IdentifierType, K, V]) Set(key K, value V) error {
 		return ierrors.Wrap(err, "failed to serialize value")
 	}
 
+	// The value hasher is disabled, so the trie stores the value itself and reports an absent key as a nil value:
+	// a nil serialized value has to be stored as the (equivalent) empty value, otherwise the key would look absent.
+	if valueBytes == nil {
+		valueBytes = []byte{}
+	}
+
 	keyBytes, err := m.keyToBytes(key)
 	if err != nil {
 		return ierrors.Wrap(err, "failed to serialize key")
